@@ -202,7 +202,8 @@ pub fn property() -> Property {
                 "GLM features are halved until the harness' objective is finite at start - t*gradient for t in {{0.5,1,2,5}} and the linear predictor moves by at most {} at t = 1                  (start = linfa's start point: coefficients 0, intercept link(mean y)); without this most fits fail in the first line search. Identity link is drawn for 1 in 8 cases when power >= 1",
                 glm::FIRST_STEP_CAP
             ),
-            "a multinomial non-stationary result is attributed to the known log_sum_exp defect (own signature) only when the loss recomputed with linfa's global-max shift and 1e-15 clamp differs              from the true loss at the returned point or at the harness-polished minimiser"
+            "a multinomial non-stationary result is attributed to the known log_sum_exp defect (own signature) only when the loss recomputed with linfa's global-max shift and 1e-15 clamp differs              from the true loss at the returned point or at the harness-polished minimiser, or when some training row's log-sum-exp lies >= 30 below the global score maximum at one of \
+             these two points (the clamp acts from 34.54 on; solvers were observed to stop at the edge of that region)"
                 .into(),
             "only f64 is exercised".into(),
             format!("oracle self-test: analytic gradient/Hessian of the harness objectives agree with central differences within {:e} relative", FD_TOL),
